@@ -330,7 +330,7 @@ def _main(prop, args, seed, t0, workdir, logdir):
     workers = [Worker(prop, j, f"shard{i}", workdir, logdir) for i, j in enumerate(jobs)]
     results = []
     for i, w in enumerate(workers):
-        w.wait(budget * 2 + 300, stall=STALL_S.get(tier, 600.0))
+        w.wait(budget * 5 + 300, stall=STALL_S.get(tier, 600.0))
         if w.died:
             res = handle_death(prop, w, jobs[i], tier, seed, workdir, logdir, violations)
             if res is not None:
@@ -424,7 +424,7 @@ def handle_death(prop, w, job, tier, seed, workdir, logdir, violations):
                 violations.append((v["signature"], write_violation(prop, seed, v)))
                 return None
     w2 = Worker(prop, job, w.tag + "_rerun", workdir, logdir)
-    w2.wait(job["budget_s"] * 2 + 300, stall=STALL_S.get(tier, 600.0))
+    w2.wait(job["budget_s"] * 5 + 300, stall=STALL_S.get(tier, 600.0))
     if w2.died:
         v = {"signature": f"crash|shard|{w2.death_name()}", "case": {"kind": "_shard", "job": job}, "sub": "crash",
              "detail": {"first_death": name, "log": w2.logfile}}
